@@ -13,7 +13,7 @@ THEOREMS = ["C13_inv_init", "C13_inv_step_partial", "C13_reachable_partial", "C1
             "C13_orig_frame_append", "C13_orig_frame_insert", "C13_orig_frame_delete", "C13_orig_frame_replace",
             "C13_orig_frame_value", "C13_orig_frame", "C13_read_names", "C13_roundtrip_names",
             "C13_useful_current", "C13_compare_current",
-            "C13_assign_current", "C13_append_current", "C13_insert_current", "C13_set_item_current"]
+            "C13_assign_current", "C13_append_current", "C13_insert_current", "C13_set_item_current", "C13_numbering_replace", "C13_numbering_delete", "C13_numbering_assign_all", "C13_numbering_assign_all_canon", "C13_keys_closed_form_partial", "C13_closed_form_insert", "C13_closed_form_keys"]
 ASSUMPTIONS = [
     "known finding suffix-clash: I1 is proved under no_suffix_clash (no mnemonic in play is the useful form of "
     "another followed by ':<k>'); without it the statement is refuted (C13_I1_refuted: A, A, A:1 -> A:1, A:2, A:1)",
